@@ -198,6 +198,12 @@ fn c04() {
         let t = local::enc(v, 1, 2, m, &None, &None, false).unwrap_or_default();
         for kb in [0u8, 2, 255, 3] { if let Ok(p) = local::dec(v, kb, &t, &None, &None) { return wit(format!("C04 v{v}.local token built under key [7,1,1,..] decrypts under key [7,{kb},{kb},..] -> {p:?}")); } }
     }}
+    // same parser instance, same token, another key (C04 at the parser layers)
+    { let key = lkv(PasetoSymmetricKey::<V4, Local>::from(key32(1))); let other = lkv(PasetoSymmetricKey::<V4, Local>::from(key32(2)));
+      let mut b = GenericBuilder::<V4, Local>::default(); b.set_claim(AudienceClaim::from("a"));
+      if let Ok(t) = b.try_encrypt(key) { let t = lk(&t);
+        let mut p = GenericParser::<V4, Local>::default(); let first = p.parse(t, key).is_ok(); if p.parse(t, other).is_ok() { return wit(format!("C04 one GenericParser<V4,Local>: parse(token, K) = {first}, then parse(same token, K') is accepted")); }
+        let mut pp = PasetoParser::<V4, Local>::default(); let mut bb = PasetoBuilder::<V4, Local>::default(); if let Ok(t2) = bb.build(key) { let t2 = lk(&t2); let first = pp.parse(t2, key).is_ok(); if pp.parse(t2, other).is_ok() { return wit(format!("C04 one PasetoParser<V4,Local>: parse(token, K) = {first}, then parse(same token, K') is accepted")); } } } }
     let (kp, _pk) = R::ed_keypair(9); let (_kp2, pk2) = R::ed_keypair(10);
     let k64 = lkv(Key::<64>::from(kp)); let k32 = lkv(Key::<32>::from(pk2));
     let mut b = Paseto::<V4, Public>::builder(); b.set_payload(Payload::from("{}"));
@@ -218,7 +224,7 @@ fn c05() {
 }
 #[cfg(feature = "main_set")]
 fn c06() {
-    let ias = [None, Some("".to_string()), Some("a".to_string()), Some("ab".to_string()), Some("{\"x\":1}".to_string()), Some("z".repeat(200))];
+    let ias = [None, Some("".to_string()), Some("a".to_string()), Some("ab".to_string()), Some("a ".to_string()), Some(" a".to_string()), Some("a\n".to_string()), Some(" ".to_string()), Some("tenant-id:1001".repeat(10)), Some(format!("{}2", &"tenant-id:1001".repeat(10)[..139])), Some("{\"x\":1}".to_string()), Some("z".repeat(200))];
     for v in 3..=4u8 { for i in &ias { for i2 in &ias { for f in [None, Some("ft".to_string())] {
         let t = match local::enc(v, 1, 2, "{\"a\":1}", &f, i, false) { Ok(t) => t, Err(_) => continue };
         let same = i.as_deref().unwrap_or("") == i2.as_deref().unwrap_or("");
@@ -343,10 +349,10 @@ fn c10() {
     }} }
     go!(V1, 32); go!(V2, 24); go!(V3, 32); go!(V4, 32);
 }
+#[cfg(feature = "main_set")]
 fn v4tok(payload: &str) -> (String, &'static PasetoSymmetricKey<V4, Local>) {
-    #[cfg(feature = "main_set")] { let n = Key::<32>::from([5u8; 32]); let key = lkv(PasetoSymmetricKey::<V4, Local>::from(key32(1)));
+    { let n = Key::<32>::from([5u8; 32]); let key = lkv(PasetoSymmetricKey::<V4, Local>::from(key32(1)));
         let t = Paseto::<V4, Local>::builder().set_payload(Payload::from(payload)).try_encrypt(&key, &PasetoNonce::<V4, Local>::from(&n)).unwrap(); (t, key) }
-    #[cfg(not(feature = "main_set"))] { unreachable!() }
 }
 #[cfg(feature = "main_set")]
 fn c11_c12(which: &str) {
@@ -558,26 +564,36 @@ fn v3pub(pid: &str) {
     std::panic::set_hook(Box::new(|_| {}));
     let skb = [0x11u8; 48]; let sk = SigningKey::from_bytes((&skb[..]).into()).unwrap();
     let pkc = VerifyingKey::from(&sk).to_encoded_point(true); let pkb: [u8; 49] = pkc.as_bytes().try_into().unwrap();
-    let k48 = Key::<48>::from(skb); let k49 = Key::<49>::from(pkb);
-    let priv_ = PasetoAsymmetricPrivateKey::<V3, Public>::from(&k48); let pub_ = PasetoAsymmetricPublicKey::<V3, Public>::try_from(&k49).unwrap();
+    let k48 = lkv(Key::<48>::from(skb)); let k49 = lkv(Key::<49>::from(pkb));
+    let priv_ = lkv(PasetoAsymmetricPrivateKey::<V3, Public>::from(k48)); let pub_ = lkv(PasetoAsymmetricPublicKey::<V3, Public>::try_from(k49).unwrap());
     let ref_verify = |t: &str, f: &str, i: &str| -> Option<Vec<u8>> { let rest = t.strip_prefix("v3.public.")?; let d = R::unb64(rest.split('.').next()?)?; if d.len() < 96 { return None; } let (m, s) = d.split_at(d.len() - 96);
         let pre = R::pae(&[&pkb, b"v3.public.", m, f.as_bytes(), i.as_bytes()]); let mut h = sha2::Sha384::new(); h.update(&pre); VerifyingKey::from(&sk).verify_digest(h, &Signature::try_from(s).ok()?).ok()?; Some(m.to_vec()) };
     for m in ["", "{\"a\":1}", &"x".repeat(130)] { for f in [None, Some("ft"), Some(" ")] { for i in [None, Some("ia")] {
         let mut b = Paseto::<V3, Public>::builder(); b.set_payload(Payload::from(m)); if let Some(f) = f { b.set_footer(Footer::from(f)); } if let Some(i) = i { b.set_implicit_assertion(ImplicitAssertion::from(i)); }
         for round in 0..2 {
-            let t = match b.try_sign(&priv_) { Ok(t) => t, Err(e) => return wit(format!("{pid} v3.public try_sign failed: {e:?}")) };
-            match Paseto::<V3, Public>::try_verify(&t, &pub_, f.map(Footer::from), i.map(ImplicitAssertion::from)) { Ok(p) if p == m => {}, o => return wit(format!("{pid} v3.public round trip (sign #{round} from one builder) failed: message len {} footer {f:?} assertion {i:?} -> {:?}", m.len(), o.map_err(|e| format!("{e:?}")))) }
+            let t = match b.try_sign(priv_) { Ok(t) => t, Err(e) => return wit(format!("{pid} v3.public try_sign failed: {e:?}")) };
+            match Paseto::<V3, Public>::try_verify(&t, pub_, f.map(Footer::from), i.map(ImplicitAssertion::from)) { Ok(p) if p == m => {}, o => return wit(format!("{pid} v3.public round trip (sign #{round} from one builder) failed: message len {} footer {f:?} assertion {i:?} -> {:?}", m.len(), o.map_err(|e| format!("{e:?}")))) }
             if ref_verify(&t, f.unwrap_or(""), i.unwrap_or("")).as_deref() != Some(m.as_bytes()) { return wit(format!("{pid} v3.public token (sign #{round} from one builder, footer {f:?}, assertion {i:?}) does not verify under an independent P-384 verifier: {t}")); }
             let seg = t.split('.').count(); if (seg == 4) != !f.unwrap_or("").is_empty() { return wit(format!("{pid} v3.public footer segment presence wrong for footer {f:?}: {t}")); }
-            for (f2, i2) in [(Some("other"), i), (f, Some("other")), (None, i)] { if f2.unwrap_or("") == f.unwrap_or("") && i2.unwrap_or("") == i.unwrap_or("") { continue; } if Paseto::<V3, Public>::try_verify(&t, &pub_, f2.map(Footer::from), i2.map(ImplicitAssertion::from)).is_ok() { return wit(format!("{pid} v3.public token built with footer {f:?}/assertion {i:?} verifies with {f2:?}/{i2:?}")); } }
+            for (f2, i2) in [(Some("other"), i), (f, Some("other")), (None, i)] { if f2.unwrap_or("") == f.unwrap_or("") && i2.unwrap_or("") == i.unwrap_or("") { continue; } if Paseto::<V3, Public>::try_verify(&t, pub_, f2.map(Footer::from), i2.map(ImplicitAssertion::from)).is_ok() { return wit(format!("{pid} v3.public token built with footer {f:?}/assertion {i:?} verifies with {f2:?}/{i2:?}")); } }
         }
     }}}
-    for n in 0..=400usize { let s = format!("v3.public.{}", R::b64(&vec![0u8; n])); if catch_unwind(AssertUnwindSafe(|| { let _ = Paseto::<V3, Public>::try_verify(&s, &pub_, None, None); let _ = PasetoParser::<V3, Public>::default().parse(lk(&s), pub_); })).is_err() { return wit(format!("{pid} v3.public try_verify/parse panics on a {n}-byte payload: {s}")); } }
+    for n in 0..=400usize { let s = format!("v3.public.{}", R::b64(&vec![0u8; n])); if catch_unwind(AssertUnwindSafe(|| { let _ = Paseto::<V3, Public>::try_verify(&s, pub_, None, None); let _ = PasetoParser::<V3, Public>::default().parse(lk(&s), pub_); })).is_err() { return wit(format!("{pid} v3.public try_verify/parse panics on a {n}-byte payload: {s}")); } }
+    // default validators on v3.public (C11/C12/C16)
+    for (payload, what) in [("{\"exp\":\"2000-01-01T00:00:00Z\"}", "an expired exp"), ("{\"nbf\":\"2999-01-01T00:00:00Z\"}", "a future nbf"), ("{\"nbf\":12345}", "a non-timestamp nbf"), ("{\"exp\":true}", "a non-timestamp exp")] {
+        let mut b = Paseto::<V3, Public>::builder(); b.set_payload(Payload::from(payload));
+        if let Ok(t) = b.try_sign(priv_) { if PasetoParser::<V3, Public>::default().parse(lk(&t), lkv(PasetoAsymmetricPublicKey::<V3, Public>::try_from(lkv(Key::<49>::from(pkb))).unwrap())).is_ok() { return wit(format!("{pid} default PasetoParser<V3,Public> accepts a token with {what}: {payload}")); } }
+    }
+    // C04: after a successful verification under K, the same token must still be rejected under the point with the other sign byte
+    { let mut b = Paseto::<V3, Public>::builder(); b.set_payload(Payload::from("{}")); if let Ok(t) = b.try_sign(priv_) {
+        let _ = Paseto::<V3, Public>::try_verify(&t, pub_, None, None);
+        let mut other = pkb; other[0] ^= 1; let ko = Key::<49>::from(other);
+        if let Ok(po) = PasetoAsymmetricPublicKey::<V3, Public>::try_from(&ko) { if Paseto::<V3, Public>::try_verify(&t, &po, None, None).is_ok() { return wit(format!("C04 v3.public token signed for K verifies under -K (sign byte flipped) after a verification under K: {t}")); } } } }
     // layers
     let mut pb = PasetoBuilder::<V3, Public>::default(); pb.set_no_expiration_danger_acknowledged();
-    if let Ok(t) = pb.build(&priv_) { match GenericParser::<V3, Public>::default().parse(lk(&t), pub_) { Ok(j) => { if !j["exp"].is_null() { return wit(format!("C13 PasetoBuilder<V3,Public> with acknowledged no-expiration still carries exp: {j}")); } } Err(e) => return wit(format!("{pid} PasetoBuilder<V3,Public> token does not parse: {e}")) } }
+    if let Ok(t) = pb.build(priv_) { match GenericParser::<V3, Public>::default().parse(lk(&t), pub_) { Ok(j) => { if !j["exp"].is_null() { return wit(format!("C13 PasetoBuilder<V3,Public> with acknowledged no-expiration still carries exp: {j}")); } } Err(e) => return wit(format!("{pid} PasetoBuilder<V3,Public> token does not parse: {e}")) } }
     { use std::collections::HashMap; let mut vm: ValidatorMap = HashMap::new(); vm.insert("foo".to_string(), Box::new(|_k: &str, _v: &serde_json::Value| Err(PasetoClaimError::CustomValidation("foo".into()))));
-      let mut b = GenericBuilder::<V3, Public>::default(); b.set_claim(CustomClaim::try_from(("foo", "bar")).unwrap()); if let Ok(t) = b.try_sign(&priv_) { let mut p = GenericParser::<V3, Public>::default(); p.extend_validation_claims(vm); if p.parse(lk(&t), pub_).is_ok() { return wit("C16 GenericParser<V3,Public>: rejecting validator registered with extend_validation_claims is not honoured".into()); }
+      let mut b = GenericBuilder::<V3, Public>::default(); b.set_claim(CustomClaim::try_from(("foo", "bar")).unwrap()); if let Ok(t) = b.try_sign(priv_) { let mut p = GenericParser::<V3, Public>::default(); p.extend_validation_claims(vm); if p.parse(lk(&t), pub_).is_ok() { return wit("C16 GenericParser<V3,Public>: rejecting validator registered with extend_validation_claims is not honoured".into()); }
         let mut p2 = GenericParser::<V3, Public>::default(); p2.check_claim(AudienceClaim::from("zz")); if p2.parse(lk(&t), pub_).is_ok() { return wit("C15 GenericParser<V3,Public> expecting aud=zz accepts a token without aud".into()); } } }
 }
 
